@@ -807,7 +807,8 @@ var fixedTemplates = [][]string{
 	{"#"},
 	{"v1", "users", "#"},
 }
-var oddValues = []string{"me", "users", "orders", "0"}
+// "arn:aws:s3:::logs": a path segment that contains the delimiter of the persisted endpoint keys ("<method>:::<url>")
+var oddValues = []string{"me", "users", "orders", "0", "arn:aws:s3:::logs"}
 
 type tmpl struct {
 	host string
@@ -1662,4 +1663,22 @@ func TestWitnessF3LostTerminalValue(t *testing.T) {
 // C15-F4. A doubled slash in one URL: the whole batch is refused.
 func TestWitnessF4BatchRefused(t *testing.T) {
 	runWitness(t, "C15-F4", witnessCase(2, 1, []string{"api.com/users/0", "api.com/users//1", "api.com/users/2"}))
+}
+
+// TestRegressionFixedDefects: cases that failed on the pinned tree before a fix: commit.
+func TestRegressionFixedDefects(t *testing.T) {
+	r := ev.New(t, "C15")
+	cases := []kase{
+		// a path segment that contains the delimiter of the persisted keys: the URL came back cut (a405742)
+		witnessCase(productionThreshold, 1, []string{"api.com/users/arn:aws:s3:::logs"}),
+		witnessCase(productionThreshold, 2, []string{"api.com/users/0", "api.com/users/arn:aws:s3:::logs", "api.com/users/arn:aws:s3:::logs", "api.com/users/1"}),
+	}
+	for _, c := range cases {
+		c.CutsB = []int{1}
+		r.Case()
+		cc := c
+		r.NonTrivial(ev.JSON(cc), func() any { return cc })
+		o := evaluate(c, t.TempDir())
+		judge(t, r, c, o)
+	}
 }
